@@ -14,7 +14,7 @@
   * `FocShape.cacheInv`, `FocShape.filters`, `FocShape.cidx` — what that does to the cache, the
     filter heap and the component index.
 
-  * `CIdx w` — `componentIndex[c]` is the ascending list of the archetypes whose mask has bit `c`
+  * `CIdxH w` — `componentIndex[c]` is the ascending list of the archetypes whose mask has bit `c`
     (what the uncached query of a TYPED filter walks: `archList (some rare)`); kept by
     `registerComponent`, `createArchetype`, `createTable`.
 
@@ -227,27 +227,27 @@ end FocShape
 /-- **the component index**: one entry per registered component; entry `c` is the ascending
     list of the archetypes whose mask has bit `c` (`storage.componentIndex`, what the uncached
     query of a typed filter walks). -/
-structure CIdx (w : World) : Prop where
+structure CIdxH (w : World) : Prop where
   len : w.componentIndex.length = w.kinds.length
   idx : ∀ (c : Nat), c < w.kinds.length →
     w.componentIndex.getD c [] =
       (List.range w.archetypes.length).filter fun a => (w.arch a).mask.get c
 
-theorem cidx_init (cap rel : Nat) : CIdx (World.init cap rel) :=
+theorem cidx_init (cap rel : Nat) : CIdxH (World.init cap rel) :=
   ⟨rfl, fun c hc => absurd hc (Nat.not_lt_zero c)⟩
 
 /-- the index only reads the masks of the archetypes -/
-theorem CIdx.congr {w w' : World} (h : CIdx w) (hk : w'.kinds = w.kinds)
+theorem CIdxH.congr {w w' : World} (h : CIdxH w) (hk : w'.kinds = w.kinds)
     (hci : w'.componentIndex = w.componentIndex)
     (hlen : w'.archetypes.length = w.archetypes.length)
-    (hm : ∀ (a : Nat), a < w.archetypes.length → (w'.arch a).mask = (w.arch a).mask) : CIdx w' := by
+    (hm : ∀ (a : Nat), a < w.archetypes.length → (w'.arch a).mask = (w.arch a).mask) : CIdxH w' := by
   refine ⟨by rw [hci, hk]; exact h.len, fun c hc => ?_⟩
   rw [hci, hlen, h.idx c (by rw [← hk]; exact hc)]
   apply List.filter_congr
   intro a ha
   rw [hm a (List.mem_range.mp ha)]
 
-namespace CIdx
+namespace CIdxH
 
 /-- the update loop of `createArchetype` on the index alone -/
 theorem caFold_componentIndex (id : Nat) : ∀ (cs : List Comp) (w : World),
@@ -278,11 +278,11 @@ theorem modifyFold_getD (id : Nat) : ∀ (cs : List Nat) (ci : List (List Nat)) 
     · have : c ≠ x := fun e => hxc e.symm
       simp [hxc, this]
 
-end CIdx
+end CIdxH
 
 /-- **`createArchetype` keeps the component index** (for a mask of registered components) -/
-theorem CIdx.createArchetypeW {w : World} (h : CIdx w) (mask : Mask) :
-    CIdx (createArchetypeW w mask) := by
+theorem CIdxH.createArchetypeW {w : World} (h : CIdxH w) (mask : Mask) :
+    CIdxH (createArchetypeW w mask) := by
   have hk : (World.createArchetypeW w mask).kinds = w.kinds :=
     createArchetypeW_proj (·.kinds) (fun _ _ _ => rfl) (fun _ _ => rfl) w mask
   have ha : (World.createArchetypeW w mask).archetypes = w.archetypes ++ [newArch w mask] :=
@@ -293,8 +293,8 @@ theorem CIdx.createArchetypeW {w : World} (h : CIdx w) (mask : Mask) :
     unfold World.createArchetypeW
     simp only
     split
-    · exact CIdx.caFold_componentIndex _ _ _
-    · exact CIdx.caFold_componentIndex _ _ _
+    · exact CIdxH.caFold_componentIndex _ _ _
+    · exact CIdxH.caFold_componentIndex _ _ _
   have hnd : (mask.toList w.kinds.length).Nodup := by
     unfold Mask.toList
     exact List.Pairwise.filter _ List.nodup_range
@@ -304,9 +304,9 @@ theorem CIdx.createArchetypeW {w : World} (h : CIdx w) (mask : Mask) :
     simp only [arch, ha, List.getD_eq_getElem?_getD, List.getElem?_append_left hlt]
   have hnew : (World.createArchetypeW w mask).arch w.archetypes.length = newArch w mask := by
     apply arch_of_get; rw [ha]; exact List.getElem?_concat_length
-  refine ⟨by rw [hci, hk, CIdx.modifyFold_length]; exact h.len, fun c hc => ?_⟩
+  refine ⟨by rw [hci, hk, CIdxH.modifyFold_length]; exact h.len, fun c hc => ?_⟩
   rw [hk] at hc
-  rw [hci, CIdx.modifyFold_getD _ _ _ c hnd (by rw [h.len]; exact hc), h.idx c hc, ha]
+  rw [hci, CIdxH.modifyFold_getD _ _ _ c hnd (by rw [h.len]; exact hc), h.idx c hc, ha]
   simp only [List.length_append, List.length_singleton, List.range_succ, List.filter_append]
   congr 1
   · apply List.filter_congr
@@ -333,8 +333,8 @@ theorem registerComponent_ok_eq {k : CompKind} {w w' : World} {n : Nat}
 end World
 
 /-- **`registerComponent` keeps the component index**: the new component is in no mask -/
-theorem CIdx.registerComponent {w w' : World} (h : CIdx w) (hS : SInvMid w) {k : CompKind}
-    {n : Nat} (hr : World.registerComponent k w = .ok n w') : CIdx w' := by
+theorem CIdxH.registerComponent {w w' : World} (h : CIdxH w) (hS : SInvMid w) {k : CompKind}
+    {n : Nat} (hr : World.registerComponent k w = .ok n w') : CIdxH w' := by
   rw [registerComponent_ok_eq hr]
   refine ⟨by simp only [List.length_append, List.length_singleton, h.len], fun c hc => ?_⟩
   simp only [List.length_append, List.length_singleton] at hc
@@ -354,10 +354,10 @@ theorem CIdx.registerComponent {w w' : World} (h : CIdx w) (hS : SInvMid w) {k :
     exact absurd this (Nat.lt_irrefl _)
 
 /-- **`createTable` keeps the component index** -/
-theorem CIdx.createTable {w w' : World} (h : CIdx w) (hS : SInvMid w) {a : Nat}
+theorem CIdxH.createTable {w w' : World} (h : CIdxH w) (hS : SInvMid w) {a : Nat}
     {rels : List RelID} {t : Nat} (ha : a < w.archetypes.length)
     (hnr : (w.arch a).hasRelations = false → (w.arch a).tables.tables = [])
-    (hok : World.createTable a rels w = .ok t w') : CIdx w' := by
+    (hok : World.createTable a rels w = .ok t w') : CIdxH w' := by
   have ct := hS.createTable ha hnr hok
   refine h.congr ct.kinds (createTable_heap hok).2 ct.archLen ?_
   intro b _
@@ -366,8 +366,8 @@ theorem CIdx.createTable {w w' : World} (h : CIdx w) (hS : SInvMid w) {a : Nat}
   · simp only [arch, List.getD_eq_getElem?_getD, ct.otherArchs b hb]
 
 /-- **`findOrCreateTableAdd` keeps the component index** -/
-theorem FocShape.cidx {w w1 w' : World} (s : FocShape w w1 w') (h : CIdx w) : CIdx w' := by
-  have h1 : CIdx w1 := by
+theorem FocShape.cidx {w w1 w' : World} (s : FocShape w w1 w') (h : CIdxH w) : CIdxH w' := by
+  have h1 : CIdxH w1 := by
     rcases s.arch with rfl | ⟨mask, _, _, rfl⟩
     · exact h
     · exact h.createArchetypeW mask
